@@ -75,7 +75,7 @@ pub trait Prop {
         false
     }
     /// called in the parent after all shards finished (cross-shard oracles); returns extra violations
-    fn post_merge(&self, _tier: Tier, _outdir: &str, _nshards: u32) -> (Vec<Fail>, Value) {
+    fn post_merge(&self, _tier: Tier, _seed: u64, _outdir: &str, _nshards: u32) -> (Vec<Fail>, Value) {
         (Vec::new(), json!({}))
     }
     fn always_inflight(&self) -> bool {
@@ -420,7 +420,7 @@ impl<P: Prop> DynProp for P {
             max_shard_wall = max_shard_wall.max(r.wall_s);
             fps.extend(read_u64s(&format!("{}/fps-{}.bin", outdir, sh)));
         }
-        let (post_fails, post_extra) = self.post_merge(tier, &outdir, nshards);
+        let (post_fails, post_extra) = self.post_merge(tier, seed, &outdir, nshards);
         for (i, f) in post_fails.into_iter().enumerate() {
             let path = write_replay(id, &format!("s{}-post{}", seed, i), &json!(null), &f);
             violations.push(Violation { decisive: true, signature: f.signature, detail: f.detail, replay: path });
